@@ -314,7 +314,12 @@ theorem pointer_case (cfg : CheckCfg) (m : Meta) : VSpec cfg (.pointer m) := by
 theorem const_case (cfg : CheckCfg) (m : Meta) (v : Val) : VSpec cfg (.const m v) := by
   intro st
   simp only [visit, synth]
-  exact ⟨setPanic_colls st _, fun _ => setPanic_not_good st _, fun _ => setPanic_not_good st _⟩
+  by_cases hp : cfg.dt.constNodePanic = true
+  · simp only [hp, if_true]
+    exact ⟨setPanic_colls st _, fun _ => setPanic_not_good st _, fun _ => setPanic_not_good st _⟩
+  · have hp' : cfg.dt.constNodePanic = false := by simpa using hp
+    simp only [hp', Bool.false_eq_true, if_false]
+    exact ⟨trivial, id, fun hg => ⟨trivial, hg⟩⟩
 
 theorem closure_case (cfg : CheckCfg) (m : Meta) (x : Node) (ih : VSpec cfg x) : VSpec cfg (.closure m x) := by
   intro st
@@ -860,16 +865,16 @@ def AllV (cfg : CheckCfg) : List Node → Prop
 theorem builtin_case (cfg : CheckCfg) (m : Meta) (name : String) (args : List Node)
     (ih : AllV cfg args) : VSpec cfg (.builtin m name args) := by
   intro st
-  have unknown : ∀ (as : List Node),
-      ((setKd (Node.builtin m name as) ifaceTy, ifaceTy, st.fail m.loc CheckErrClass.unknownBuiltin) :
+  have unknown : ∀ (as : List Node) (cl : CheckErrClass),
+      ((setKd (Node.builtin m name as) ifaceTy, ifaceTy, st.fail m.loc cl) :
         Node × OTy × CState).2.2.colls = st.colls ∧
-      (¬ Good st → ¬ Good (st.fail m.loc CheckErrClass.unknownBuiltin)) ∧
-      (Good st → ¬ Good (st.fail m.loc CheckErrClass.unknownBuiltin)) :=
-    fun _ => ⟨fail_colls st _ _, fun _ => fail_not_good st _ _, fun _ => fail_not_good st _ _⟩
+      (¬ Good st → ¬ Good (st.fail m.loc cl)) ∧
+      (Good st → ¬ Good (st.fail m.loc cl)) :=
+    fun _ _ => ⟨fail_colls st _ _, fun _ => fail_not_good st _ _, fun _ => fail_not_good st _ _⟩
   match args, ih with
   | [], _ =>
     simp only [visit, synth]
-    exact unknown []
+    exact unknown [] _
   | [a], ih =>
     simp only [visit, synth]
     by_cases hlen : (name == "len") = true
@@ -892,7 +897,7 @@ theorem builtin_case (cfg : CheckCfg) (m : Meta) (name : String) (args : List No
         subst e
         exact gf gd
     · simp only [hlen]
-      exact unknown [a]
+      exact unknown [a] _
   | [a, c], ih =>
     simp only [visit, synth]
     by_cases hcb : isCollBuiltin name = true
@@ -952,10 +957,10 @@ theorem builtin_case (cfg : CheckCfg) (m : Meta) (name : String) (args : List No
           simp only [harr', Bool.not_false, if_true]
           exact fail_not_good st1 _ _
     · simp only [hcb]
-      exact unknown [a, c]
+      exact unknown [a, c] _
   | a :: c :: d :: rest, _ =>
     simp only [visit, synth]
-    exact unknown (a :: c :: d :: rest)
+    exact unknown (a :: c :: d :: rest) _
 
 /-! ### assembly: structural recursion over the tree -/
 
